@@ -1,9 +1,70 @@
 import NmVerif.Proto
+import NmVerif.Arr
+import NmVerif.Index.Transpose
+import NmVerif.Index.Reshape
+import NmVerif.Index.Flip
 namespace NmVerif.Driver.C03
 open NmVerif NmVerif.Proto
 
-def handle : Handler := fun op _args =>
+/-- what harness/h_c03.cpp prints for a view over `data[k] = k` -/
+def showView : Option IxView → String
+  | none => "nothing"
+  | some v => s!"ok shape={fmtNats v.dst} data={fmtInts v.provenance}"
+
+def single (l : List Int) : Option Int := match l with | [x] => some x | _ => none
+
+def handle : Handler := fun op a =>
   match op with
+  | "reshape" => orBad do
+      let s ← a.nats "shape"; let t ← a.ints "to"
+      pure (showView (reshapeView s t))
+  | "flatten" => orBad do
+      let s ← a.nats "shape"
+      pure (showView (flattenView s))
+  | "transpose" => orBad do
+      let s ← a.nats "shape"; let ax ← a.optInts "axes"
+      pure (showView (transposeView s ax))
+  | "moveaxis" => orBad do
+      let s ← a.nats "shape"; let src ← a.ints "src"; let dst ← a.ints "dst"
+      if (a.get? "kind") == some "int" then do
+        let _ ← single src; let _ ← single dst
+        pure (showView (moveaxisView s src dst))
+      else pure (showView (moveaxisView s src dst))
+  | "swapaxes" => orBad do
+      let s ← a.nats "shape"; let a1 ← a.int "a1"; let a2 ← a.int "a2"
+      pure (showView (swapaxesView s a1 a2))
+  | "expand_dims" => orBad do
+      let s ← a.nats "shape"; let ax ← a.ints "axis"
+      if (a.get? "kind") == some "int" then do
+        let _ ← single ax
+        pure (showView (expandDimsView s ax))
+      else pure (showView (expandDimsView s ax))
+  | "squeeze" => orBad do
+      let s ← a.nats "shape"
+      pure (showView (squeezeView s))
+  | "atleast" => orBad do
+      let s ← a.nats "shape"
+      match a.get? "kind" with
+      | some "1d" => pure (showView (atleastNdView s 1))
+      | some "2d" => pure (showView (atleastNdView s 2))
+      | _ => do
+        let nd ← a.nat "nd"
+        pure (showView (atleastNdView s nd))
+  | "flip" => orBad do
+      let s ← a.nats "shape"; let ax ← a.optInts "axis"
+      pure (showView (flipView s ax))
+  | "transpose2" => orBad do
+      let s ← a.nats "shape"; let p ← a.ints "axes"; let q ← a.ints "axes2"
+      pure (showView do
+        let inner ← transposeView s (some p)
+        let outer ← transposeView inner.dst (some q)
+        pure (outer.comp inner))
+  | "flip2" => orBad do
+      let s ← a.nats "shape"; let p ← a.ints "axis"; let q ← a.ints "axis2"
+      pure (showView do
+        let inner ← flipView s (some p)
+        let outer ← flipView inner.dst (some q)
+        pure (outer.comp inner))
   | _ => none
 
 end NmVerif.Driver.C03
